@@ -1596,7 +1596,9 @@ class AgProtocol(utils.EventEmitter):
 
     def _on_bia(self, *args) -> None:
         for enabled, state in zip(args, self.ag_indicators):
-            state.enabled = bool(int(enabled))
+            # An omitted value leaves the indicator as it is.
+            if enabled:
+                state.enabled = bool(int(enabled))
         self.send_ok()
 
     def _on_bcc(self) -> None:
